@@ -99,6 +99,8 @@ func exec(line string) string {
 		return hx.Hex(c[:])
 	case "smulb":
 		return hx.Hex(smulBase(hb(1)))
+	case "smul": // GeScalarMult (sliding window) on FromBytes(a), decode flag ignored like ECVRFVerify does for pk
+		return hx.Hex(scalarMult(hb(1), hb(2)))
 	case "prove":
 		sk := hb(1)
 		pi, err := vrf.VRFGenProve(nil, vrf.VRFPrivateKey(sk), hb(2))
@@ -341,6 +343,38 @@ func (g *gen) primitives(n int) {
 		if r.Chance(1, 2) {
 			g.do("funi " + hx.Hex(b))
 		}
+	}
+	// sliding-window scalar multiplication, also on points that are NOT on the curve
+	ff := bytes.Repeat([]byte{0xff}, 32)
+	scalars := [][]byte{make([]byte, 32), bigLE(big.NewInt(1), 32), bigLE(big.NewInt(15), 32), bigLE(big.NewInt(16), 32), bigLE(big.NewInt(0x5555), 32),
+		bigLE(lOrd, 32), bigLE(new(big.Int).Sub(lOrd, big.NewInt(1)), 32), ff, append(append([]byte{}, ff[:31]...), 0x7f), append(make([]byte, 31), 0x80),
+		bigLE(new(big.Int).Sub(new(big.Int).Lsh(big.NewInt(1), 128), big.NewInt(1)), 32)}
+	for _, k := range scalars {
+		g.do("smul " + hx.Hex(k) + " " + hx.Hex(smulBase(bigLE(big.NewInt(7), 32))))
+		g.do("smul " + hx.Hex(k) + " " + hx.Hex(r.Bytes(32)))
+	}
+	for i := 0; i < n; i++ {
+		k := r.Bytes(32)
+		switch r.Intn(4) {
+		case 0:
+			k[31] &= 0x7f
+		case 1:
+			k = append(r.Bytes(16), make([]byte, 16)...) // a 128-bit challenge
+		case 2:
+			for j := r.Intn(32); j < 32; j++ { // long runs of ones: carries in slide
+				k[j] = 0xff
+			}
+			k[31] &= byte(r.Pick(0x7f, 0xff, 0x3f))
+		}
+		a := r.Bytes(32) // about half of these are off the curve
+		if r.Chance(1, 3) {
+			kk := r.Bytes(32)
+			kk[31] &= 0x7f
+			a = smulBase(kk)
+		} else if r.Chance(1, 4) {
+			a = edges[r.Intn(len(edges))]
+		}
+		g.do("smul " + hx.Hex(k) + " " + hx.Hex(a))
 	}
 	for i := 0; i < n; i++ {
 		k := r.Bytes(32)
